@@ -1802,6 +1802,25 @@ func c18ToBytes(d *document.Document) ([]byte, string) {
 	return b, ""
 }
 
+// c18Decoy: a library-built document with static headers and footers of all kinds, a table and a picture.
+func c18Decoy() *document.Document {
+	var d *document.Document
+	if p := guard(func() {
+		d = document.New()
+		d.AddParagraph("decoy body")
+		d.AddHeader(document.HeaderFooterTypeDefault, "static header")
+		d.AddFooter(document.HeaderFooterTypeDefault, "static footer")
+		d.AddHeader(document.HeaderFooterTypeFirst, "static first header")
+		d.AddFooter(document.HeaderFooterTypeEven, "static even footer")
+		if t, err := d.AddTable(&document.TableConfig{Rows: 1, Cols: 1, Width: 2000}); err == nil && t != nil {
+			t.SetCellText(0, 0, "decoy cell")
+		}
+	}); p != "" {
+		return nil
+	}
+	return d
+}
+
 func c18Exec(cs c18Case) (res c18Result) {
 	document.VerifResetGlobals()
 	a, td, why := c18Build(cs)
@@ -1829,6 +1848,14 @@ func c18Exec(cs c18Case) (res c18Result) {
 	var err error
 	if p := guard(func() {
 		te := document.NewTemplateEngine()
+		// the engine has been used before: another document template, whose header/footer parts have the usual
+		// names but carry no placeholder, was loaded and rendered with the same data.  Nothing the engine learnt
+		// from that template may be applied to this one (seed C18-d1).
+		if decoy := c18Decoy(); decoy != nil {
+			if _, e := te.LoadTemplateFromDocument("decoy", decoy); e == nil {
+				te.RenderTemplateToDocument("decoy", td)
+			}
+		}
 		if _, err = te.LoadTemplateFromDocument("t", a.doc); err != nil {
 			return
 		}
@@ -2177,7 +2204,7 @@ func runC18(r *rep.Run) {
 	r.Bounds["data_classes_for_name"] = c18DataNames
 	r.Bounds["row_loop"] = "table {body, nested} x template row {first, middle, last} x items {0,1,3} x cell runs {single, multi} x {no, one} variable placeholder in another row x item values {plain, XML metacharacters}"
 	r.Bounds["image_placeholder"] = "location {body, cell, nested cell} x text {none, before, after, both} x runs {one, split inside the directive, own runs} x neighbours {none, paragraph above and below} x data {given, missing}"
-	r.Rule = "every case builds its base document twice with the library API (header/footer with split runs and extra parts/relationships: a package of the independent writer opened with OpenFromMemory, then extended through the API): one copy is loaded with LoadTemplateFromDocument and rendered with RenderTemplateToDocument, the other stays pristine. ToBytes of the pristine copy and of the rendered document are read by the independent reader; body, header and footer trees are walked in parallel: block order and kinds equal; every member of w:pPr/w:tblPr/w:trPr/w:tcPr/w:sectPr and w:tblGrid equal (references resolved to type+content); per paragraph the rendered text equals the base text after an independent scan-and-replace of {{ident}} placeholders that have data (placeholders without data stay; a control character of a value may come out as anything); every non-text run child (w:br, w:drawing, field parts) present at the same place; every character outside placeholders keeps its run properties and xml:space, the characters of a value (or of a kept placeholder) carry the run properties of one of the placeholder's runs; a loop row yields one row per item with the template row's row/cell/paragraph properties and the template text with the directives removed and item fields replaced; an image placeholder with data becomes a drawing resolving to the supplied bytes between the unchanged text before and after; all other parts byte-identical (styles: same set of style definitions), content types and every relationship (type, target, mode) kept; the rendered package satisfies the well-formedness invariant. state = base main part + header/footer part + data; non-trivial = rendering changed the main part or a header/footer part; signature = clause | culprit (property or element name, value class) | location computed from where the difference was observed"
+	r.Rule = "every case builds its base document twice with the library API (header/footer with split runs and extra parts/relationships: a package of the independent writer opened with OpenFromMemory, then extended through the API): one copy is loaded with LoadTemplateFromDocument into an engine that has already loaded and rendered another document template (static headers/footers of all kinds under the usual part names) and rendered with RenderTemplateToDocument, the other stays pristine. ToBytes of the pristine copy and of the rendered document are read by the independent reader; body, header and footer trees are walked in parallel: block order and kinds equal; every member of w:pPr/w:tblPr/w:trPr/w:tcPr/w:sectPr and w:tblGrid equal (references resolved to type+content); per paragraph the rendered text equals the base text after an independent scan-and-replace of {{ident}} placeholders that have data (placeholders without data stay; a control character of a value may come out as anything); every non-text run child (w:br, w:drawing, field parts) present at the same place; every character outside placeholders keeps its run properties and xml:space, the characters of a value (or of a kept placeholder) carry the run properties of one of the placeholder's runs; a loop row yields one row per item with the template row's row/cell/paragraph properties and the template text with the directives removed and item fields replaced; an image placeholder with data becomes a drawing resolving to the supplied bytes between the unchanged text before and after; all other parts byte-identical (styles: same set of style definitions), content types and every relationship (type, target, mode) kept; the rendered package satisfies the well-formedness invariant. state = base main part + header/footer part + data; non-trivial = rendering changed the main part or a header/footer part; signature = clause | culprit (property or element name, value class) | location computed from where the difference was observed"
 	r.Assume = []string{
 		"the oracle compares with what the base document itself saves (what Open or ToBytes of the base loses is C03/C04, not C18)",
 		"no non-text run lies between two fragments of one placeholder (whether such a sequence is a placeholder is not stated)",
